@@ -918,6 +918,62 @@ static void rec_geometry_sampled(int nd, int np, int zmode, size_t size, int nse
 	stripe_free(&s);
 }
 
+/* the generation kernels are also used INSIDE recovery (raid_delta_gen computes the parity of the surviving blocks with the
+ * selected gen kernels, pointing the unused parities at a shared scratch buffer): recovery is therefore repeated with the gen
+ * pointers set to every kernel family the CPU can run, as raid_init() would on other CPUs */
+extern void (*raid_gen3_ptr)(int nd, size_t size, void **vv);
+extern void (*raid_genz_ptr)(int nd, size_t size, void **vv);
+extern void (*raid_gen_ptr[6])(int nd, size_t size, void **vv);
+
+static const char *kfamily(const struct kernel *k)
+{
+	const char *u = strchr(k->name + 5, '_'); /* raid_genN_<family> */
+	return u ? u + 1 : "";
+}
+
+static int do_rec_gen_families(int thorough)
+{
+	int ki, kj, nd, np, z;
+	char seen[32][24];
+	int nseen = 0, i;
+	for (ki = 0; ki < (int)(sizeof(kernels) / sizeof(kernels[0])); ++ki) {
+		const struct kernel *k = &kernels[ki];
+		const char *fam;
+		int known = 0, nset = 0;
+		long before = n_sets;
+		if (k->is_rec || !has_feat(k->feat))
+			continue;
+		fam = kfamily(k);
+		for (i = 0; i < nseen; ++i)
+			if (!strcmp(seen[i], fam))
+				known = 1;
+		if (known || nseen >= 32)
+			continue;
+		snprintf(seen[nseen++], sizeof(seen[0]), "%s", fam);
+		raid_init();
+		for (kj = 0; kj < (int)(sizeof(kernels) / sizeof(kernels[0])); ++kj) {
+			const struct kernel *g = &kernels[kj];
+			if (g->is_rec || !has_feat(g->feat) || strcmp(kfamily(g), fam) != 0)
+				continue;
+			if (g->zmode)
+				raid_genz_ptr = (gen_f *)g->fn;
+			else if (g->level == 3)
+				raid_gen3_ptr = (gen_f *)g->fn;
+			else if (g->level >= 1 && g->level <= 6)
+				raid_gen_ptr[g->level - 1] = (gen_f *)g->fn;
+			++nset;
+		}
+		for (z = 0; z < 2; ++z)
+			for (np = (z ? 3 : 1); np <= (z ? 3 : 6); ++np)
+				for (nd = 1; nd <= (thorough ? 6 : 4); ++nd)
+					rec_geometry_exhaustive(nd, np, z, (nd + np) & 1 ? 64 : 320, nd & 1);
+		printf("STAT family_%s_sets %ld\n", fam, n_sets - before);
+		(void)nset;
+	}
+	raid_init();
+	return 0;
+}
+
 static int do_rec(int thorough)
 {
 	int nd, np, z;
@@ -950,6 +1006,7 @@ static int do_rec(int thorough)
 		}
 		printf("STAT sampled_sets %ld\n", n_sets - before);
 	}
+	do_rec_gen_families(thorough);
 	return 0;
 }
 
